@@ -10,9 +10,12 @@ CONSTANTS
   Targets = {1, 2, 3, 4, 5, 10}
   DnsPort = {2, 5, 8}
   Allowed = {1, 2, 4, 5, 10}
+  Unsendable = {}
+  DisarmFirst = TRUE
   Fam <- GenFam
   DgAlpha <- GenDgReal
   RpAlpha <- GenRpReal
+  MidAlpha <- NoMid
   Sync = TRUE
   T = 1
   DNST = 57
